@@ -397,6 +397,7 @@ func newTree(parent Tree, s *Segment) (Tree, error) {
 		if _, exists := parentBindSet[bind]; exists {
 			return nil, errors.Errorf("duplicated bind parameter %q in position %d", bind, s.Pos.Offset)
 		}
+		parentBindSet[bind] = struct{}{} // Also catch duplicates within the segment
 	}
 
 	return &regexTree{
